@@ -157,11 +157,24 @@ pub fn cut_family(id0: usize, rng: &mut Rng, out: &mut Vec<String>) {
         let mut r = g::AReq::get("/big");
         r.method = "POST".into();
         // ... and bodies at the threshold itself: 1024 bytes are still buffered before delivery
-        let blen = *rng.pick(&[1023usize, 1024, 1024, 1025, 1100, 1500, 3000]);
+        // (taken in turn, so that a short run has them all)
+        let turn = sel / 3;
+        let blen = [1024usize, 1500, 1023, 3000, 1025, 1100][turn % 6];
         let f = if blen > 1025 && rng.chance(1, 3) { g::Framing::Chunked } else { g::Framing::Len };
         g::set_body(rng, &mut r, f, blen);
         let a = g::rich_action(0, rng, blen, true);
-        let reqs = vec![g::AReq::get("/first"), r, g::AReq::get("/last")];
+        // the request with the body may also be the connection's last one (a buffered body is
+        // complete before delivery then, too)
+        let closing = blen <= 1025 && turn % 2 == 0;
+        if closing {
+            if rng.chance(1, 2) {
+                r.hdrs.push(("Connection".into(), "close".into()));
+            } else {
+                r.ver = (1, 0);
+            }
+            r.last = true;
+        }
+        let reqs = if closing { vec![g::AReq::get("/first"), r] } else { vec![g::AReq::get("/first"), r, g::AReq::get("/last")] };
         let script = vec![g::simple_action(0, rng), a, g::simple_action(2, rng)];
         let mut c = g::assemble_pub(rng, &reqs, script);
         no_panic_script(&mut c);
